@@ -60,15 +60,26 @@ def register(GROUPS, c2g, incs, REPO, HERE, STRUCTS, Group):
         # tag and half length of a level of the binary recursion; SC_LOG2_32 expands to lookups in sc_log2_lookup_table
         fsc = os.path.join(REPO, "src", "sc.c")
         tobjs = c2g.clang_ast(fsc, "sc_log2_lookup_table", incs(tmp))
-        t, i = c2g.translate_table(c2g.find_var(tobjs, "sc_log2_lookup_table"), "notify_log2_table")
+        t, i = c2g.translate_table(c2g.find_var(tobjs, "sc_log2_lookup_table"), "sc_log2_lookup_table")
         g.add(t, i)
+
+        def enums_as_params(n):
+            # an enumerator (SC_TAG_NOTIFY_RECURSIVE) becomes a free parameter of the slice; the theorems instantiate it
+            # with the value printed from the headers (Gen/Consts.v)
+            if isinstance(n, dict):
+                if n.get("kind") == "DeclRefExpr" and n.get("referencedDecl", {}).get("kind") == "EnumConstantDecl":
+                    n["referencedDecl"]["kind"] = "VarDecl"
+                for c in n.get("inner", []):
+                    enums_as_params(c)
+            return n
         st = c2g.select_between(F, src, r"tag = SC_TAG_NOTIFY_RECURSIVE \+ SC_LOG2_32 \(length\);", r"SC_ASSERT \(start <= me && me < start \+ length && me < groupsize\)")
-        t, i = c2g.translate_block(st, "binary_tag", [], ["tag", "length2"], fname="binary", free_params=True, tables={"sc_log2_lookup_table": "notify_log2_table"})
+        st = [enums_as_params(x) for x in st]
+        t, i = c2g.translate_block(st, "binary_tag", [], ["tag", "length2"], fname="binary", free_params=True, tables={"sc_log2_lookup_table"})
         g.add(t, i)
         # length of the top level: next power of two
         F = fn("sc_notify")
         st = c2g.select_between(F, src, r"pow2length = SC_ROUNDUP2_32 \(mpisize\);", r"SC_ASSERT \(num_receivers >= 0\)")
-        t, i = c2g.translate_block(st, "binary_pow2length", [], ["pow2length"], fname="binary", free_params=True, tables={"sc_log2_lookup_table": "notify_log2_table"})
+        t, i = c2g.translate_block(st, "binary_pow2length", [], ["pow2length"], fname="binary", free_params=True, tables={"sc_log2_lookup_table"})
         g.add(t, i)
         return g, [f, fsc]
     GROUPS["NotifyC01"] = gen_notify
